@@ -178,6 +178,18 @@ def cur_wrapped_param(c: Callee) -> str | None:
     return params[0] if params else None
 
 
+_EXTERNAL_ALIASES = {
+    "asyncio.Queue": "asyncio.queues.Queue",
+    "asyncio.LifoQueue": "asyncio.queues.LifoQueue",
+    "asyncio.PriorityQueue": "asyncio.queues.PriorityQueue",
+    "asyncio.create_task": "asyncio.tasks.create_task",
+    "asyncio.sleep": "asyncio.tasks.sleep",
+    "asyncio.gather": "asyncio.tasks.gather",
+    "asyncio.Lock": "asyncio.locks.Lock",
+    "asyncio.Event": "asyncio.locks.Event",
+}
+
+
 @dataclass(frozen=True)
 class Frame:
     callee: Callee
@@ -1387,6 +1399,15 @@ class Interp:
             meth = runcls.find_method(fn.attr) if runcls is not None else None
             if meth is not None:
                 return [Target("repo", frame=self.bind_call(self.make_callee(meth, runcls), call, fr, fr.V, facts=self._facts_ctx))]
+        if fact is None and isinstance(fn, (ast.Name, ast.Attribute)):
+            # a call the analysis wrote itself (no typed fact at its position): resolved through the module's names
+            d0 = p.resolve_expr(m, fn)
+            if d0 is not None and d0.kind == "external":
+                return [Target("external", fullname=_EXTERNAL_ALIASES.get(d0.obj, d0.obj), argtypes=None)]
+            if d0 is not None and d0.kind == "class":
+                return [self._ctor_target(d0.obj, call, fr, None)]
+            if d0 is not None and d0.kind == "func":
+                return [Target("repo", frame=self.bind_call(self.make_callee(d0.obj, d0.obj.cls), call, fr, fr.V, facts=self._facts_ctx))]
         if fact is None:
             return [Target("unknown", note=f"no type fact for call {norm(call)[:80]}")]
         full, kind, _ = fact
@@ -1437,6 +1458,16 @@ class Interp:
                         except AnalysisError:
                             cls_ = None
                     return [Target("external", fullname="enum.IntEnum.__call__", cls=cls_, argtypes=argtypes)]
+            # a local that holds a class of the repository (`error_type = TABLE[key]` ... `error_type(text)`): the
+            # constructor of the declared class or of one of its subclasses
+            if isinstance(fn, ast.Name) and t and (t.startswith("def (") or t.startswith("type[")):
+                ret = t.rsplit("->", 1)[-1].strip() if t.startswith("def (") else t[5:-1]
+                ret = ret.split("[")[0]
+                if ret.startswith(PKG + "."):
+                    dd = p.lookup_fullname(ret)
+                    if dd is not None and dd.kind == "class":
+                        cs = [dd.obj] + [c_ for c_ in p.subclasses(dd.obj) if c_ is not dd.obj]
+                        return [self._ctor_target(c_, call, fr, argtypes) for c_ in cs]
             return [Target("unknown", note=f"unresolved callee {norm(fn)[:60]} : {t}")]
         outs: list[Target] = []
         for one in full.split("|"):
